@@ -410,6 +410,17 @@ pub fn run_case(case: &Case, rng: &mut Rng) -> J {
             obs.push(json!({"form": form, "src": src, "out": out, "log": log, "bind_ok": ok}));
             continue;
         }
+        if form == "alt" || form == "altlit" {
+            // the case's second tree (extra.alt), which the property says is the same thing: bound / literal form
+            if let Some(alt) = case.extra.get("alt").and_then(T::from_json) {
+                let mut c2 = case.clone();
+                c2.tree = alt;
+                let p = prepare(&c2, if form == "alt" { "bound" } else { "lit" }, rng);
+                let e = execute(&p, &case.funcs);
+                obs.push(json!({"form": form, "src": p.main_src, "out": e.out, "log": e.log, "bind_ok": e.bind_after_ok}));
+            }
+            continue;
+        }
         if form == "vm" {
             // the bound form with the compiled code and the interpreter's steps recorded
             let p = prepare(case, "bound", rng);
